@@ -281,6 +281,16 @@ def run(ctx):
     else:
         c11.worker_loop(ctx, A, W, "R12.6", drain_liveness=True)
 
+    # ---- R12.8 the one thread that completes acknowledgements can always get on: no lock-order cycle involves code the
+    # command worker runs (its handlers, the eviction hooks they call).  A worker stuck behind the sweeper never calls
+    # done() again: the current and every later write stay Pending for good.
+    if W is not None:
+        import c18
+        bad_cycle, bad_self = c18.cycle_through(ctx, [W.name])
+        ctx.check(bad_cycle is None and not bad_self, "R12.8", "no-lock-cycle-through-worker",
+                  "no lock-order cycle (or same-class nested acquisition) involves code reachable from the command worker, the only completer of acknowledgements",
+                  detail=("cycle %s" % " -> ".join(bad_cycle) if bad_cycle else "") + (" self %s" % bad_self[:2] if bad_self else ""))
+
     # ---- queued pairs always carry a fresh (pending) acknowledgement -----------------------------
     n_pairs = 0
     for name, f in F.fns.items():
